@@ -401,8 +401,8 @@ pub fn run_rand(mods: &mut RMods, c: &Value, out: &mut dyn FnMut(Value)) {
             for be in 0..4 {
                 for (name, v) in vars.iter() {
                     match mods.exec(be, c, *v) {
-                        Ok(o) => runs.push(json!({"be": be, "v": name, "pt": v.0, "sk": v.1, "xa": v.2, "xe": v.3, "mask": fnv(&o.mask), "body": fnv(&o.body), "nmask": o.mask.len(), "panic": ""})),
-                        Err(p) => runs.push(json!({"be": be, "v": name, "pt": v.0, "sk": v.1, "xa": v.2, "xe": v.3, "mask": "", "body": "", "nmask": 0, "panic": p})),
+                        Ok(o) => runs.push(json!({"be": be, "v": name, "pt": v.0, "sk": v.1, "xa": v.2, "xe": v.3, "mask": fnv(&o.mask), "body": fnv(&o.body), "nmask": o.mask.len(), "nbody": o.body.len(), "panic": ""})),
+                        Err(p) => runs.push(json!({"be": be, "v": name, "pt": v.0, "sk": v.1, "xa": v.2, "xe": v.3, "mask": "", "body": "", "nmask": 0, "nbody": 0, "panic": p})),
                     }
                 }
             }
